@@ -64,6 +64,9 @@ func c06StringEscapes(r *Run) {
 					if !ok || c2 == cc {
 						return true
 					}
+					if bs != nil {
+						return false // the outermost one: an inner `case quote, '\\':` tests the following byte
+					}
 					for _, v := range c2.List {
 						if iv, ok := intValue(info, v); ok && iv == '\\' {
 							if b, ok := info.TypeOf(v).Underlying().(*types.Basic); ok && b.Info()&types.IsInteger != 0 {
@@ -81,9 +84,26 @@ func c06StringEscapes(r *Run) {
 				var incs []ast.Node
 				for _, s := range bs.Body {
 					ast.Inspect(s, func(m ast.Node) bool {
-						if ids, ok := m.(*ast.IncDecStmt); ok && ids.Tok == token.INC {
-							if id, ok := ids.X.(*ast.Ident); ok && isIntType(info.TypeOf(id)) {
-								incs = append(incs, ids)
+						switch x := m.(type) {
+						case *ast.IncDecStmt:
+							if id, ok := x.X.(*ast.Ident); ok && x.Tok == token.INC && isIntType(info.TypeOf(id)) {
+								incs = append(incs, x)
+							}
+						case *ast.AssignStmt:
+							// p += 1, p = p + 1
+							if len(x.Lhs) == 1 && len(x.Rhs) == 1 {
+								if id, ok := x.Lhs[0].(*ast.Ident); ok && isIntType(info.TypeOf(id)) {
+									if v, ok := intValue(info, x.Rhs[0]); ok && v == 1 && x.Tok == token.ADD_ASSIGN {
+										incs = append(incs, x)
+									}
+									if be, ok := ast.Unparen(x.Rhs[0]).(*ast.BinaryExpr); ok && x.Tok == token.ASSIGN && be.Op == token.ADD {
+										if l, ok := ast.Unparen(be.X).(*ast.Ident); ok && info.Uses[l] == info.Uses[id] {
+											if v, ok := intValue(info, be.Y); ok && v == 1 {
+												incs = append(incs, x)
+											}
+										}
+									}
+								}
 							}
 						}
 						return true
@@ -94,38 +114,84 @@ func c06StringEscapes(r *Run) {
 					continue
 				}
 				par := r.P.Parents(scan.File)
-				bad := ""
-				for _, inc := range incs {
-					// the innermost if of the case body enclosing the increment
-					var cond ast.Expr
-					for p := par[inc]; p != nil && p != ast.Node(bs); p = par[p] {
-						if is, ok := p.(*ast.IfStmt); ok && containsNode(is.Body, inc) {
-							cond = is.Cond
-							break
+				// isNext: the expression denotes the byte after the current one: src[p+1], a local defined from
+				// it, or a helper of the package handed p+1 (`l.byteAt(p + 1)`)
+				plusOne := func(e ast.Expr) bool {
+					be, ok := ast.Unparen(e).(*ast.BinaryExpr)
+					if !ok || be.Op != token.ADD {
+						return false
+					}
+					v, ok := intValue(info, be.Y)
+					return ok && v == 1
+				}
+				var isNext func(e ast.Expr, depth int) bool
+				isNext = func(e ast.Expr, depth int) bool {
+					switch x := ast.Unparen(e).(type) {
+					case *ast.IndexExpr:
+						return plusOne(x.Index)
+					case *ast.CallExpr:
+						if hf := callee(info, x); hf != nil && hf.Pkg() == scan.Obj.Pkg() && len(x.Args) == 1 {
+							if b, ok := info.TypeOf(x).Underlying().(*types.Basic); ok && b.Kind() == types.Uint8 {
+								return plusOne(x.Args[0])
+							}
+						}
+					case *ast.Ident:
+						if v, ok := info.Uses[x].(*types.Var); ok && depth < 2 {
+							rhs, clean := c11Defs(info, bs, v)
+							if clean && len(rhs) == 1 {
+								return isNext(rhs[0], depth+1)
+							}
 						}
 					}
-					if cond == nil {
+					return false
+				}
+				bad := ""
+				for _, inc := range incs {
+					// the innermost condition on the following byte that encloses the increment: an if whose
+					// condition compares it, or the clause of a switch over it
+					cmp := map[string]bool{}
+					condText := ""
+					add := func(val ast.Expr) {
+						if v, ok := intValue(info, val); ok {
+							cmp[string(rune(v))] = true
+						} else {
+							cmp["$"+exprStr(val)] = true
+						}
+					}
+					var child ast.Node = inc
+					for p := par[inc]; p != nil && p != ast.Node(bs) && len(cmp) == 0; child, p = p, par[p] {
+						switch x := p.(type) {
+						case *ast.IfStmt:
+							if !containsNode(x.Body, child) {
+								continue
+							}
+							ast.Inspect(x.Cond, func(m ast.Node) bool {
+								be, ok := m.(*ast.BinaryExpr)
+								if !ok || be.Op != token.EQL {
+									return true
+								}
+								for _, pr := range [][2]ast.Expr{{be.X, be.Y}, {be.Y, be.X}} {
+									if isNext(pr[0], 0) {
+										add(pr[1])
+									}
+								}
+								return true
+							})
+							condText = exprStr(x.Cond)
+						case *ast.CaseClause:
+							if sw, ok := par[par[p]].(*ast.SwitchStmt); ok && sw.Tag != nil && isNext(sw.Tag, 0) {
+								for _, v := range x.List {
+									add(v)
+								}
+								condText = "case " + exprStr(sw.Tag)
+							}
+						}
+					}
+					if len(cmp) == 0 {
 						bad = "the following byte is skipped unconditionally (also the `{` of a `{{` placed after a backslash)"
 						break
 					}
-					// values the following byte (an index expression with `+ 1`) is compared with, by ==, in the condition
-					cmp := map[string]bool{}
-					ast.Inspect(cond, func(m ast.Node) bool {
-						be, ok := m.(*ast.BinaryExpr)
-						if !ok || be.Op != token.EQL {
-							return true
-						}
-						for _, pr := range [][2]ast.Expr{{be.X, be.Y}, {be.Y, be.X}} {
-							if ix, ok := ast.Unparen(pr[0]).(*ast.IndexExpr); ok && strings.Contains(exprStr(ix.Index), "+ 1") {
-								if v, ok := intValue(info, pr[1]); ok {
-									cmp[string(rune(v))] = true
-								} else {
-									cmp["$"+exprStr(pr[1])] = true
-								}
-							}
-						}
-						return true
-					})
+					cond := ast.NewIdent(condText)
 					hasBackslash := cmp["\\"]
 					hasQuote := cmp["\""] || cmp["'"]
 					for c := range cmp {
